@@ -166,6 +166,73 @@ class Obj:
     def __repr__(self):
         return f"<{self.cls.name} obj {id(self) & 0xFFFF:x}>"
 
+    # Python-level protocol (dict keys, sorted(), ==) is delegated to the interpreted class, so that
+    # e.g. a dict keyed by Atom objects behaves as it does under CPython (Atom.__hash__/__eq__)
+    def _has(self, name):
+        try:
+            self.cls.lookup(name)
+            return True
+        except KeyError:
+            return False
+
+    def __hash__(self):
+        if CURRENT_INTERP and self._has("__hash__"):
+            h = CURRENT_INTERP[-1].call_method(self, "__hash__", [], {})
+            return hash(h) if not isinstance(h, int) else h
+        return id(self) >> 4
+
+    def __eq__(self, other):
+        if self is other:
+            return True
+        if CURRENT_INTERP and self._has("__eq__"):
+            r = CURRENT_INTERP[-1].call_method(self, "__eq__", [other], {})
+            return CURRENT_INTERP[-1].truth(r)
+        return False
+
+    def __ne__(self, other):
+        return not self.__eq__(other)
+
+    def _cmp(self, name, other):
+        if CURRENT_INTERP and self._has(name):
+            return CURRENT_INTERP[-1].truth(CURRENT_INTERP[-1].call_method(self, name, [other], {}))
+        return NotImplemented
+
+    def __lt__(self, other):
+        return self._cmp("__lt__", other)
+
+    def __gt__(self, other):
+        return self._cmp("__gt__", other)
+
+    def __le__(self, other):
+        return self._cmp("__le__", other)
+
+    def __ge__(self, other):
+        return self._cmp("__ge__", other)
+
+    def __iter__(self):
+        if "_tuple" in self.fields:
+            return iter(self.fields["_tuple"])
+        raise TypeError("object is not iterable")
+
+    def __len__(self):
+        if "_tuple" in self.fields:
+            return len(self.fields["_tuple"])
+        raise TypeError("object has no len()")
+
+    def __getitem__(self, k):
+        if "_tuple" in self.fields:
+            return self.fields["_tuple"][k]
+        raise TypeError("object is not subscriptable")
+
+
+CURRENT_INTERP = []
+
+
+class SuperProxy:
+    def __init__(self, owner, inst):
+        self.owner = owner
+        self.inst = inst
+
 
 class PropertyObj:
     def __init__(self, fget=None, fset=None):
@@ -197,6 +264,7 @@ class Closure:
         self.qualname = qualname
         self.defaults = None
         self.kw_defaults = None
+        self.owner = None
 
     def __repr__(self):
         return f"<function {self.qualname}>"
@@ -364,6 +432,8 @@ class Interp:
         self.depth = 0
         self.max_depth = 60
         self.unroll_limit = 64
+        CURRENT_INTERP.clear()
+        CURRENT_INTERP.append(self)
 
     # -- module loading ---------------------------------------------------------------------
     def load_module(self, relpath, name=None):
@@ -434,6 +504,8 @@ class Interp:
                     "float": self._b_float,
                     "bool": self._b_bool,
                     "abs": self._b_abs,
+                    "hash": self._b_hash,
+                    "next": self._b_next,
                     "property": PropertyObj,
                     "staticmethod": StaticM,
                     "classmethod": ClassM,
@@ -551,6 +623,23 @@ class Interp:
     def _b_abs(self, v):
         return abs(v)
 
+    def _b_hash(self, v):
+        if isinstance(v, Obj) and not v._has("__hash__") and v._has("__eq__"):
+            raise_py("TypeError", "unhashable type")
+        return hash(v)
+
+    def _b_next(self, it, *default):
+        if isinstance(it, GenResult):
+            if it.items:
+                return it.items.pop(0)
+            if default:
+                return default[0]
+            raise_py("StopIteration")
+        try:
+            return next(it, *default)
+        except StopIteration:
+            raise_py("StopIteration")
+
     def _b_type(self, v):
         if isinstance(v, Obj):
             return v.cls
@@ -559,7 +648,7 @@ class Interp:
         return type(v)
 
     def _b_super(self, *a):
-        raise Unsupported("super()")
+        raise Unsupported("super() with arguments")
 
     # -- truth --------------------------------------------------------------------------------
     def truth(self, v):
@@ -610,6 +699,26 @@ class Interp:
             if isinstance(a, ClassM):
                 return BoundMethod(a.f, o.cls)
             return a
+        if isinstance(o, SuperProxy):
+            for b in o.owner.bases:
+                if isinstance(b, ClassObj):
+                    try:
+                        a = b.lookup(name)
+                    except KeyError:
+                        continue
+                    if isinstance(a, Closure):
+                        return BoundMethod(a, o.inst)
+                    return a
+                if isinstance(b, type) and issubclass(b, tuple) and name == "__new__":
+                    # namedtuple base: the instance is a heap object carrying the tuple
+                    def tuple_new(cls, *vals):
+                        ob = Obj(cls)
+                        ob.fields["_tuple"] = tuple(vals)
+                        for fname, v in zip(getattr(b, "_fields", ()), vals):
+                            ob.fields[fname] = v
+                        return ob
+                    return tuple_new
+            raise_py("AttributeError", name)
         if isinstance(o, ClassObj):
             try:
                 a = o.lookup(name)
@@ -707,7 +816,16 @@ class Interp:
         key = cls.module.name + "." + cls.name
         if key in self.call_models:
             return self.call_models[key](self, list(args), dict(kwargs))
-        o = Obj(cls)
+        try:
+            new = cls.lookup("__new__")
+        except KeyError:
+            new = None
+        if isinstance(new, Closure):
+            o = self.call_function(new, [cls] + list(args), kwargs)
+            if not (isinstance(o, Obj) and o.cls.is_subclass(cls)):
+                return o
+        else:
+            o = Obj(cls)
         try:
             init = cls.lookup("__init__")
         except KeyError:
@@ -728,6 +846,7 @@ class Interp:
         node = f.node
         env = Env(f.env, f.module.globals)
         self.bind_args(f, env, list(args), dict(kwargs))
+        env.vars["__closure__"] = f
         self.depth += 1
         try:
             if isinstance(node, ast.Lambda):
@@ -791,6 +910,8 @@ class Interp:
         if hasattr(v, "sym_iter"):
             return v.sym_iter(self)
         if isinstance(v, Obj):
+            if "_tuple" in v.fields and not v._has("__iter__"):
+                return list(v.fields["_tuple"])
             it = self.call_method(v, "__iter__", [], {})
             return self.iterate(it)
         if isinstance(v, (Sym, OpaqueModule)):
@@ -1151,6 +1272,10 @@ class Interp:
                 for n in _assigned_names(s):
                     ns[n] = Unavailable(str(e))
         cls = ClassObj(st.name, bases, ns, module)
+        for v in ns.values():
+            fn = v.fget if isinstance(v, PropertyObj) else (v.f if isinstance(v, (StaticM, ClassM)) else v)
+            if isinstance(fn, Closure):
+                fn.owner = cls
         if any(isinstance(b, ExcClass) for b in bases):
             # user-defined exception
             exc = ExcClass(st.name, [b for b in bases if isinstance(b, ExcClass)])
@@ -1455,6 +1580,13 @@ class Interp:
                 kwargs[k.arg] = self.eval(k.value, env, module)
         if isinstance(f, OpaqueModule) and f._name == "locals":
             return dict(env.vars)
+        if getattr(f, "__func__", None) is Interp._b_super and not args:
+            fn = env.vars.get("__closure__")
+            owner = getattr(fn, "owner", None)
+            if owner is None:
+                raise Unsupported("super() outside a method")
+            first = fn.node.args.args[0].arg
+            return SuperProxy(owner, env.vars[first])
         return self.call(f, args, kwargs)
 
     def e_Lambda(self, e, env, module):
@@ -1483,6 +1615,8 @@ class Interp:
         if hasattr(o, "sym_getitem"):
             return o.sym_getitem(self, k)
         if isinstance(o, Obj):
+            if "_tuple" in o.fields and not o._has("__getitem__"):
+                return o.fields["_tuple"][k]
             return self.call_method(o, "__getitem__", [k], {})
         if isinstance(o, ClassObj):
             raise Unsupported("class subscript")
@@ -1591,6 +1725,13 @@ class Interp:
         env.assign(e.target.id, v)
         return v
 
+    def e_YieldFrom(self, e, env, module):
+        st = self.__dict__.get("_yield_stack")
+        if not st:
+            raise Unsupported("yield from outside a generator call")
+        st[-1].extend(self.iterate(self.eval(e.value, env, module)))
+        return None
+
     def e_Yield(self, e, env, module):
         st = self.__dict__.get("_yield_stack")
         if not st:
@@ -1606,7 +1747,16 @@ class GenResult:
         self.items = items
 
     def sym_iter(self, interp):
-        return list(self.items)
+        out, self.items = list(self.items), []
+        return out
+
+    def __iter__(self):
+        return self
+
+    def __next__(self):
+        if self.items:
+            return self.items.pop(0)
+        raise StopIteration
 
 
 class SymStr:
